@@ -2,7 +2,7 @@
    Part 1: frame lemmas (what every helper leaves untouched).
    Part 2: pre-vote campaign.  Part 3: when the term changes.
    Part 4: the receiver of a pre-vote request.  Part 5: the leader side. *)
-From RV Require Import Base.Prelude Base.IdSet M.Util M.Proto M.MemStorage M.Inflights
+From RV Require Import Base.Prelude Base.IdSet Base.IdSetProofs M.Util M.Proto M.MemStorage M.Inflights
   M.Progress M.RaftLog M.Quorum M.QuorumProofs M.ConfChange M.Msg M.Raft M.RaftProofs.
 From RecordUpdate Require Import RecordSet.
 Import RecordSetNotations.
@@ -426,4 +426,229 @@ Proof.
       destruct (id =? x); reflexivity. }
     pose proof (majority_le (length V) (length_pos _ V HV)). lia. }
   destruct H as [H|H]; eapply Hh; exact H.
+Qed.
+
+(* ------------------------------------------------------------------ *)
+(* Part 2: campaigns *)
+
+Lemma record_vote_nil id v : Quorum.record_vote [] id v = [(id, v)].
+Proof. reflexivity. Qed.
+
+(* the real campaign: term + 1, vote for self; Leader at once iff the own vote wins *)
+Lemma campaign_real_facts tr r r' : campaign_real tr r = Ok r' ->
+  r_term r' = r_term r + 1 /\ cfg_of r' = cfg_of r /\ r_vote r' = r_id r /\ r_state r <> Leader /\
+  ((tally r [(r_id r, true)] = VoteWon /\ r_state r' = Leader /\ r_leader_id r' = r_id r) \/
+   (tally r [(r_id r, true)] = VotePending /\ r_state r' = Candidate /\
+    r_leader_id r' = INVALID_ID)).
+Proof.
+  unfold campaign_real. intros H. inv_bind H.
+  apply become_candidate_facts in Hx.
+  destruct Hx as (A1 & A2 & A3 & A4 & A5 & A6 & A7 & A8 & A9 & A10 & A11).
+  pose proof (cfg_fields _ _ A2) as (B1 & _).
+  inv_bind H. destruct x0 as [r2 res].
+  apply poll_gen_cases in Hx. cbn zeta in Hx. rewrite A9, record_vote_nil, B1 in Hx.
+  destruct Hx as [Hres Hx].
+  assert (Ht : tally x [(r_id r, true)] = tally r [(r_id r, true)]).
+  { unfold tally, conf_of. rewrite A8. reflexivity. }
+  rewrite Ht in Hres.
+  destruct res.
+  - (* pending *)
+    subst r2. inv_bind H. apply send_vote_requests_msgs_only in H. apply msgs_only_keeps in H.
+    apply keeps_fields in H. destruct H as (C1 & C2 & C3 & C4 & C5).
+    cbn in C1, C2, C3, C4, C5. rewrite C1, C2, C3, C4, C5.
+    repeat split; try assumption. right. repeat split; try assumption. symmetry; exact Hres.
+  - exfalso. unfold tally in Hres. symmetry in Hres. revert Hres. apply own_vote_not_lost.
+  - rewrite A3 in Hx. cbn [role_eqb] in Hx. destruct Hx as (r1 & Hl & Hb). okinv H.
+    apply become_leader_keeps_t in Hl. destruct Hl as ((C1 & C2) & C3 & C4 & C5).
+    apply bcast_append_keeps in Hb. apply keeps_fields in Hb.
+    destruct Hb as (D1 & D2 & D3 & D4 & D5).
+    cbn in C1, C2, C3, C5. rewrite D1, D2, D3, D4, D5, C1, C2, C3, C4, C5.
+    repeat split; try assumption. left. repeat split; try assumption. symmetry; exact Hres.
+Qed.
+
+(* the state a node is in right after [become_pre_candidate] and its own pre-vote *)
+Definition pre_candidate_of (r : raft) : raft :=
+  r <| r_state := PreCandidate |>
+    <| r_prs := (r_prs r) <| t_votes := [(r_id r, true)] |> |>
+    <| r_leader_id := INVALID_ID |>.
+
+Lemma become_pre_candidate_eq r r' : become_pre_candidate r = Ok r' ->
+  r_state r <> Leader /\
+  r' = r <| r_state := PreCandidate |> <| r_prs := (r_prs r) <| t_votes := [] |> |>
+         <| r_leader_id := INVALID_ID |>.
+Proof.
+  unfold become_pre_candidate. intros H. destruct (is_leader r) eqn:E; [discriminate|].
+  okinv H. split; [|reflexivity]. intros C. unfold is_leader in E. rewrite C in E. discriminate.
+Qed.
+
+Theorem become_pre_candidate_spec r r' : become_pre_candidate r = Ok r' ->
+  r_state r <> Leader /\
+  r_term r' = r_term r /\ r_vote r' = r_vote r /\ r_state r' = PreCandidate /\
+  r_leader_id r' = INVALID_ID /\ t_votes (r_prs r') = [] /\
+  r_msgs r' = r_msgs r /\ r_log r' = r_log r /\
+  r_election_elapsed r' = r_election_elapsed r /\
+  r_randomized_election_timeout r' = r_randomized_election_timeout r /\
+  r' = r <| r_state := PreCandidate |> <| r_prs := (r_prs r) <| t_votes := [] |> |>
+         <| r_leader_id := INVALID_ID |>.
+Proof.
+  intros H. apply become_pre_candidate_eq in H. destruct H as [H1 H2]. subst r'.
+  repeat split; try reflexivity. exact H1.
+Qed.
+
+(* the pre-vote campaign, exactly *)
+Theorem campaign_pre_spec r r' : campaign_pre r = Ok r' ->
+  r_state r <> Leader /\
+  ((tally r [(r_id r, true)] = VoteWon /\ campaign_real false (pre_candidate_of r) = Ok r') \/
+   (tally r [(r_id r, true)] = VotePending /\
+    exists ci new,
+      commit_info (r_log r) = Ok ci /\
+      r' = (pre_candidate_of r) <| r_msgs := r_msgs r ++ new |> /\
+      map m_to new = others (r_id r) (voter_ids (conf_of r)) /\
+      forall x, In x new -> exists lt, last_term (r_log r) = Ok lt /\
+        x = vote_req (r_id r) (r_log r) (r_priority r) MsgRequestPreVote (r_term r + 1)
+                     (fst ci) (snd ci) false lt (m_to x))).
+Proof.
+  unfold campaign_pre. intros H. inv_bind H.
+  apply become_pre_candidate_eq in Hx. destruct Hx as [Hnl Hx]. split; [exact Hnl|].
+  inv_bind H. destruct x0 as [r2 res]. unfold poll in Hx0.
+  apply poll_gen_cases in Hx0. cbn zeta in Hx0. subst x.
+  cbn [r_prs t_votes set r_id r_state r_term] in Hx0, H.
+  change (t_votes (r_prs (r <| r_state := PreCandidate |>
+            <| r_prs := (r_prs r) <| t_votes := [] |> |> <| r_leader_id := INVALID_ID |>)))
+    with (@nil (N * bool)) in Hx0.
+  change (r_id (r <| r_state := PreCandidate |>
+            <| r_prs := (r_prs r) <| t_votes := [] |> |> <| r_leader_id := INVALID_ID |>))
+    with (r_id r) in Hx0.
+  rewrite record_vote_nil in Hx0.
+  change (tally (r <| r_state := PreCandidate |>
+            <| r_prs := (r_prs r) <| t_votes := [] |> |> <| r_leader_id := INVALID_ID |>)
+            [(r_id r, true)]) with (tally r [(r_id r, true)]) in Hx0.
+  change (with_votes (r <| r_state := PreCandidate |>
+            <| r_prs := (r_prs r) <| t_votes := [] |> |> <| r_leader_id := INVALID_ID |>)
+            [(r_id r, true)]) with (pre_candidate_of r) in Hx0.
+  destruct Hx0 as [Hres Hc]. destruct res.
+  - right. split; [symmetry; exact Hres|]. subst r2. inv_bind H. exists x.
+    change (r_term (r <| r_state := PreCandidate |>
+            <| r_prs := (r_prs r) <| t_votes := [] |> |> <| r_leader_id := INVALID_ID |>))
+      with (r_term r) in H.
+    apply send_vote_requests_eq in H; [|right; reflexivity|lia].
+    change (r_id (pre_candidate_of r)) with (r_id r) in H.
+    change (r_log (pre_candidate_of r)) with (r_log r) in H, Hx.
+    change (r_priority (pre_candidate_of r)) with (r_priority r) in H.
+    change (r_msgs (pre_candidate_of r)) with (r_msgs r) in H.
+    change (conf_of (pre_candidate_of r)) with (conf_of r) in H.
+    destruct H as [[H1 H2]|(lt & H1 & H2)].
+    + exists []. rewrite H1, app_nil_r. split; [exact Hx|]. split.
+      { rewrite H2. change (r_msgs r) with (r_msgs (pre_candidate_of r)).
+        rewrite set_msgs_same. reflexivity. }
+      split; [reflexivity|]. intros y [].
+    + eexists. split; [exact Hx|]. split; [exact H2|]. split.
+      { rewrite map_map. erewrite map_ext; [apply map_id|].
+        intros a. apply (vote_req_fields (r_id r) (r_log r) (r_priority r)). }
+      intros y Hy. apply in_map_iff in Hy. destruct Hy as (id & <- & _).
+      exists lt. split; [exact H1|].
+      f_equal. symmetry. apply (vote_req_fields (r_id r) (r_log r) (r_priority r)).
+  - exfalso. symmetry in Hres. revert Hres. apply own_vote_not_lost.
+  - okinv H. left. split; [symmetry; exact Hres|]. exact Hc.
+Qed.
+
+(* readable form of the non-winning pre-vote campaign *)
+Theorem campaign_pre_pending r r' :
+  campaign_pre r = Ok r' -> tally r [(r_id r, true)] <> VoteWon ->
+  r_term r' = r_term r /\ r_vote r' = r_vote r /\ r_state r' = PreCandidate /\
+  r_leader_id r' = INVALID_ID /\ t_votes (r_prs r') = [(r_id r, true)] /\
+  r_log r' = r_log r /\ r_election_elapsed r' = r_election_elapsed r /\
+  exists new, r_msgs r' = r_msgs r ++ new /\
+    r' = (pre_candidate_of r) <| r_msgs := r_msgs r ++ new |> /\
+    map m_to new = others (r_id r) (voter_ids (conf_of r)) /\
+    forall x, In x new ->
+      m_type x = MsgRequestPreVote /\ m_term x = r_term r + 1 /\ m_from x = r_id r /\
+      m_index x = last_index (r_log r) /\ last_term (r_log r) = Ok (m_log_term x) /\
+      commit_info (r_log r) = Ok (m_commit x, m_commit_term x) /\
+      m_reject x = false /\ m_entries x = [] /\ m_context x = [] /\
+      m_priority x = r_priority r.
+Proof.
+  intros H Hn. apply campaign_pre_spec in H. destruct H as [_ [[Hw _]|[_ H]]]; [contradiction|].
+  destruct H as (ci & new & Hci & Hr & Hto & Hall). subst r'.
+  repeat split; try reflexivity.
+  exists new. split; [reflexivity|]. split; [reflexivity|]. split; [exact Hto|].
+  intros x Hx. destruct (Hall x Hx) as (lt & Hlt & E).
+  pose proof (vote_req_fields (r_id r) (r_log r) (r_priority r) MsgRequestPreVote (r_term r + 1)
+                (fst ci) (snd ci) false lt (m_to x)) as F.
+  cbn zeta in F. rewrite <- E in F.
+  destruct F as (F1 & F2 & F3 & F4 & F5 & F6 & F7 & F8 & F9 & F10 & F11 & F12).
+  rewrite F6, F7, F8. destruct ci. repeat split; assumption.
+Qed.
+
+(* who gets a request: every voter (of either half) but the node itself *)
+Lemma others_voters c self id :
+  In id (others self (voter_ids c)) <-> id <> self /\ voters_contains c id = true.
+Proof.
+  unfold others, voter_ids, voters_contains. rewrite filter_In, <- IdSetProofs.mem_In, IdSetProofs.mem_union.
+  rewrite negb_true_iff, N.eqb_neq. tauto.
+Qed.
+
+Definition hup_campaigns (r : raft) (transfer : bool) : Prop :=
+  r_state r <> Leader /\ r_promotable r = true.
+
+Lemma hup_cases r tl r' : hup r tl = Ok r' ->
+  r' = r \/
+  (r_state r <> Leader /\ r_promotable r = true /\
+   if tl then campaign_real true r = Ok r'
+   else if r_pre_vote r then campaign_pre r = Ok r' else campaign_real false r = Ok r').
+Proof.
+  unfold hup. intros H.
+  destruct (is_leader r) eqn:E; [okinv H; left; reflexivity|].
+  destruct (r_promotable r) eqn:P; cbn [negb] in H; [|okinv H; left; reflexivity].
+  inv_bind H. inv_bind H. destruct x0; [okinv H; left; reflexivity|].
+  right. split; [|split; [reflexivity|destruct tl; [|destruct (r_pre_vote r)]; exact H]].
+  intros C. unfold is_leader in E. rewrite C in E. discriminate.
+Qed.
+
+(* [hup]: the term is unchanged, or it is raised by exactly one by a real campaign,
+   which with pre-vote happens only for a transfer or when the own vote is a quorum *)
+Lemma hup_term r tl r' : hup r tl = Ok r' ->
+  cfg_of r' = cfg_of r /\
+  (r_term r' = r_term r \/
+   (r_term r' = r_term r + 1 /\ r_state r <> Leader /\ r_promotable r = true /\
+    (tl = true \/ r_pre_vote r = false \/ tally r [(r_id r, true)] = VoteWon))).
+Proof.
+  intros H. apply hup_cases in H. destruct H as [->|(Hl & Hp & H)]; [split; [reflexivity|left; reflexivity]|].
+  destruct tl.
+  - apply campaign_real_facts in H. destruct H as (A1 & A2 & _).
+    split; [exact A2|]. right. auto.
+  - destruct (r_pre_vote r) eqn:PV.
+    + apply campaign_pre_spec in H. destruct H as [_ [[Hw H]|[_ H]]].
+      * apply campaign_real_facts in H. destruct H as (A1 & A2 & _).
+        split; [exact A2|]. right. cbn in A1. auto 6.
+      * destruct H as (ci & new & _ & -> & _). split; [reflexivity|left; reflexivity].
+    + apply campaign_real_facts in H. destruct H as (A1 & A2 & _).
+      split; [exact A2|]. right. auto 6.
+Qed.
+
+Lemma maybe_commit_by_vote_cases r m r' : maybe_commit_by_vote r m = Ok r' ->
+  r' = r <| r_log := r_log r' |> \/
+  ((r_state r = Candidate \/ r_state r = PreCandidate) /\
+   exists l', become_follower (r <| r_log := l' |>) (r_term r) INVALID_ID = Ok r').
+Proof.
+  assert (Hself : r = r <| r_log := r_log r |>) by (destruct r; reflexivity).
+  unfold maybe_commit_by_vote. intros H.
+  dtop H; [okinv H; left; exact Hself|].
+  dtop H; [okinv H; left; exact Hself|].
+  inv_bind H. destruct x as [l' b].
+  destruct b; cbn [negb] in H; [|okinv H; left; reflexivity].
+  change (r_state (r <| r_log := l' |>)) with (r_state r) in H.
+  dtop H; [okinv H; left; reflexivity|].
+  inv_bind H. destruct x; [|okinv H; left; reflexivity].
+  right. split; [|exists l'; exact H].
+  destruct (r_state r); cbn in Heqb1; try discriminate; auto.
+Qed.
+
+Lemma maybe_commit_by_vote_keeps_t r m r' : maybe_commit_by_vote r m = Ok r' ->
+  keeps_t r r' /\ r_vote r' = r_vote r.
+Proof.
+  intros H. apply maybe_commit_by_vote_cases in H. destruct H as [H|(_ & l' & H)].
+  - rewrite H. split; [split|]; reflexivity.
+  - change (r_term r) with (r_term (r <| r_log := l' |>)) in H.
+    apply become_follower_keeps_t in H. exact H.
 Qed.
